@@ -347,7 +347,7 @@ def run(tier):
     from graphql import validate
     ngen = 0
     for _ in range(400 if quick else 6000):
-        if ngen >= (120 if quick else 2000):
+        if ngen >= (120 if quick else 700):
             break
         q = QGen(rng).query() if rng.random() < 0.35 else Cover(rng).query()
         if "@defer" not in q and "@stream" not in q:
@@ -367,7 +367,7 @@ def run(tier):
     merge_cases, merge_meta = [], []
     for q, doc in docs:
         ref_doc = strip_directives(doc)
-        ntrials = (4 if quick else 30) if q in QUERIES else (3 if quick else 6)
+        ntrials = (4 if quick else 20) if q in QUERIES else (3 if quick else 5)
         for trial in range(ntrials):
             log0 = []
             w0 = World(rng, [None], {}, log0)
